@@ -217,6 +217,7 @@ func c33(r *core.Run) {
 	c33RestoreAlways(r)
 	w := r.W
 	funcs := w.PkgFuncs("pkg/settlement/traffic")
+	c33PersistedTotals(r, funcs)
 	la := core.NewLockAnalysis(w, "pkg/settlement/traffic")
 	la.Run()
 	const mu = trafficT + ".Mutex"
